@@ -26,7 +26,7 @@ suite > /tmp/seedverify-clean.json
 NCLEAN=$(python3 -c 'import json;print(len(json.load(open("/tmp/seedverify-clean.json"))))')
 echo "clean tree: $NCLEAN passing tests (root module)"
 ids=("$@")
-for d in $SRC/out-C*/[AB]; do
+for d in $SRC/out-C*/[A-D]; do
   p=$(basename $(dirname $d)); p=${p#out-}; v=$(basename $d); id=$p-$v
   if [ ${#ids[@]} -gt 0 ] && [[ ! " ${ids[*]} " =~ " $id " ]]; then continue; fi
   dest=$(grep -m1 '^// DEST:' $d/demo_test.go | sed 's|// DEST: *||')
